@@ -321,7 +321,7 @@ def numeric_rhs_check(indict, marker, solvers, seed):
     from harness.core import numeval, refsol, truthcheck
     ps = truthcheck.parse_system(indict, marker)
     rng = random.Random(seed + 17)
-    t = sympy.Symbol("t")
+    t = sympy.Symbol(indict.get("options", {}).get("input_time_symbol", "t"))
     fvars = {}
     for name, f in ps["functions"].items():
         fvars[name] = f
@@ -759,7 +759,7 @@ def case_dict(case):
         for v in sv:
             base = v.replace(marker, "")
             if base in fun_entries:
-                t = sympy.Symbol("t")
+                t = sympy.Symbol(opts.get("input_time_symbol", "t"))
                 f = refsol.parse(fun_entries[base], marker)
                 want_e = sympy.diff(f, t, v.count(marker)).subs(t, 0) if v.count(marker) else f.subs(t, 0)
             elif v in user_iv:
